@@ -63,7 +63,7 @@ def run(tier, seed, started):
     kinds = res.sets.get('deviation_kinds', set())
     if c.get('executions', 0) < 300 or not {'next', 'hold', 'release', 'run'} <= kinds or \
             not c.get('statuses_judged') or not c.get('headers_judged'):
-        raise common.Broken(f'vacuous C07 run: {c} {kinds}')
+        common.vacuous(PROP, res, f'vacuous C07 run: {c} {kinds}')
     coverage = {
         'evaluations': c['executions'],
         'distinct_nontrivial': len(res.sets.get('schedules', ())),
